@@ -10,6 +10,34 @@ CHECKS = {
    ref="DESIGN.md §4 C03"),
 }
 
+CHECKS.update({
+ "C04": dict(
+   technique="property-based testing (proptest): reference apply model (exact result or refusal), diff/apply inverse law directly and through .tinydiff text, exhaustive 4x3 action table",
+   text="Generated-input exploration: generated diffs (every action x absent/unnamed/matching/mismatching target at all five levels, 2- and 3-namespace targets) are applied by quill and by a reference model written from the statement; generated pairs (A,B) check apply(diff(A,B),A)==B directly and through harness-written .tinydiff text; the 12-cell option table is enumerated. Holds on everything explored.",
+   note="Trusted: reference apply/diff in the harness, harness tinydiff writer. Assumes target namespace index >=1, parameters without source names and non-empty comments for the inverse law (inexpressible in a diff). Unspecified nodes (None on absent target, children below a removal) accept either outcome.",
+   ref="DESIGN.md §4 C04"),
+ "C08": dict(
+   technique="property-based testing (proptest) with per-case enumeration of all namespace permutations: reference reorder, inverse and identity laws",
+   text="Generated-input exploration: each generated set (2-4 namespaces) is reordered by every permutation and compared with a reference permutation model incl. descriptor re-expression and required failures; inverse/identity laws checked on injective sets. Holds on everything explored.",
+   note="Trusted: reference reorder and descriptor rewriter in the harness. Round-trip identity only asserted where class names are injective per namespace and no external descriptor class collides.",
+   ref="DESIGN.md §4 C08"),
+ "C09": dict(
+   technique="property-based testing (proptest): reference join model plus projection law and key-union predicate",
+   text="Generated-input exploration: pairs derived from a common base by independent edit scripts are merged by quill and by a reference join; projections onto (s,a) and (s,b) must give back A and B; conflicting comments / parameter source names / first namespaces must be reported. Holds on everything explored.",
+   note="Trusted: reference merge/projection in the harness.",
+   ref="DESIGN.md §4 C09"),
+ "C10": dict(
+   technique="property-based testing (proptest): reference filters from the documented rules plus subset, survival and idempotence laws",
+   text="Generated-input exploration: sets and diffs mixing placeholder and real names at every depth are filtered by quill and by reference implementations of the documented rules; independent laws (output subset unchanged, idempotence, no surviving removal/addition, no dropped changing node) are checked on the same cases. Holds on everything explored.",
+   note="Trusted: harness reference of the documented rules.",
+   ref="DESIGN.md §4 C10"),
+ "C11": dict(
+   technique="property-based testing (proptest): reference extension/contraction, contract-after-extend inverse law, required failure on missing outer class",
+   text="Generated-input exploration: sets with nesting depth 0-4, packages, missing names and missing outer classes in any non-first namespace are extended/contracted by quill and by a reference; inverse law on simple stored names. Holds on everything explored.",
+   note="Trusted: harness reference incl. the last-$ split rule. Unnamed nested classes with a missing outer class accept either outcome.",
+   ref="DESIGN.md §4 C11"),
+})
+
 NOT_YET = {
 }
 
